@@ -330,3 +330,97 @@ def tree_changes(ob):
         elif a != b:
             ch.append(rel)
     return ch
+
+
+# ---------------------------------------------------------------- system-call level observation
+import re as _re
+_CALL = _re.compile(r"^(\d+)\s+(\w+)\((.*)\)\s+=\s+(-?\d+|\?)(.*)$")
+_STR = _re.compile(r'"((?:[^"\\]|\\.)*)"')
+MUTATING = {"rename", "renameat", "renameat2", "unlink", "unlinkat", "mkdir", "mkdirat", "rmdir", "chmod",
+            "fchmodat", "truncate", "link", "linkat", "symlink", "symlinkat", "utimensat", "utime", "utimes",
+            "chown", "fchownat", "lchown", "mknod", "mknodat", "creat", "setxattr", "removexattr"}
+OPEN_WRITE = ("O_WRONLY", "O_RDWR", "O_CREAT", "O_TRUNC", "O_APPEND")
+
+
+def execute_strace(sc, inject=None):
+    """Run gopatch under strace. Returns obs dict plus 'calls': list of (pid, name, args, ret) for
+    file-system calls, and 'mutations': those that modify something under the scenario root."""
+    root = vlib.scratch("st")
+    try:
+        materialise(sc, root)
+        cwd = os.path.join(root, "w")
+        before = snapshot(cwd)
+        argv, stdin = command_line(sc, root)
+        trace = os.path.join(root, "trace.txt")
+        cmd = ["strace", "-f", "-qq", "-o", trace, "-s", "256",
+               "-e", "trace=%file,write,pwrite64,writev,ftruncate,fchmod,fchown,close,fsync,fdatasync,dup,dup2,dup3"]
+        if inject:
+            cmd += ["-e", "inject=" + inject]
+        cmd += [vlib.GOPATCH] + argv
+        try:
+            p = subprocess.run(cmd, cwd=cwd, input=stdin, stdout=subprocess.PIPE, stderr=subprocess.PIPE, timeout=120)
+            rc, out, err = p.returncode, p.stdout, p.stderr
+        except subprocess.TimeoutExpired:
+            rc, out, err = -999, b"", b""
+        after = snapshot(cwd)
+        calls = parse_strace(open(trace, errors="replace").read() if os.path.exists(trace) else "")
+        muts = mutations(calls, root, cwd)
+        rb = root.encode()
+        return {"root": root, "cwd": cwd, "argv": argv, "rc": rc, "stdout": out, "stderr": err,
+                "nstdout": out.replace(rb, b"<ROOT>"), "nstderr": err.replace(rb, b"<ROOT>"),
+                "before": before, "after": after, "calls": calls, "mutations": muts}
+    finally:
+        shutil.rmtree(root, ignore_errors=True)
+
+
+def parse_strace(text):
+    calls = []
+    pending = {}
+    for line in text.split("\n"):
+        line = line.rstrip()
+        if not line:
+            continue
+        m = _re.match(r"^(\d+)\s+(.*)$", line)
+        if not m:
+            continue
+        pid, rest = m.group(1), m.group(2)
+        if rest.endswith("<unfinished ...>"):
+            pending[pid] = rest[:-len("<unfinished ...>")].rstrip()
+            continue
+        mm = _re.match(r"^<\.\.\. (\w+) resumed>(.*)$", rest)
+        if mm and pid in pending:
+            rest = pending.pop(pid) + mm.group(2)
+        m2 = _re.match(r"^(\w+)\((.*)\)\s+=\s+(-?\d+|\?)(.*)$", rest)
+        if not m2:
+            continue
+        calls.append((pid, m2.group(1), m2.group(2), m2.group(3), m2.group(4)))
+    return calls
+
+
+def _paths(args):
+    return [bytes(s, "latin1").decode("unicode_escape") for s in _STR.findall(args)]
+
+
+def mutations(calls, root, cwd):
+    """system calls that create, modify or remove something below root (stdio and /dev excluded)"""
+    muts = []
+    fds = {}   # (pid-agnostic) fd -> path for fds opened for writing under root
+    for pid, name, args, ret, tail in calls:
+        paths = [p if os.path.isabs(p) else os.path.normpath(os.path.join(cwd, p)) for p in _paths(args)]
+        inside = [p for p in paths if p.startswith(root + "/") and not p.endswith("trace.txt")]
+        if name in ("open", "openat", "creat"):
+            if inside and (name == "creat" or any(f in args for f in OPEN_WRITE)):
+                muts.append((name, inside[0], args, ret))
+                if ret not in ("?",) and int(ret) >= 0:
+                    fds[int(ret)] = inside[0]
+        elif name in MUTATING:
+            if inside:
+                muts.append((name, inside, args, ret))
+        elif name in ("write", "pwrite64", "writev", "ftruncate", "fchmod", "fchown"):
+            fd = int(args.split(",")[0]) if args.split(",")[0].strip().isdigit() else None
+            if fd in fds:
+                muts.append((name, fds[fd], args[:80], ret))
+        elif name == "close":
+            fd = int(args) if args.strip().isdigit() else None
+            fds.pop(fd, None)
+    return muts
